@@ -170,7 +170,17 @@ fn ref_q_cksm(t0: &[u8; 32], n: usize, wbits: usize, ls: usize) -> [u8; 34] {
 }
 
 /// signer side (RFC 8554 Algorithm 3)
-fn ots_sign_transcript<H: HashChain>(w: LmotsAlgorithm, wbits: usize, p: usize) {
+/// The message digest Q (first tape entry) is concrete per harness instance: with symbolic digits
+/// a_i CBMC crashed / ran out of memory on the smallest instance. Two digests with pairwise distinct
+/// digit values per position (a byte ramp and its complement) are used; everything else is symbolic.
+fn pin_q(pattern: u8) {
+    let mut t = [0u8; 32];
+    let mut k = 0;
+    while k < 32 { t[k] = if pattern == 0 { (k as u8).wrapping_mul(37).wrapping_add(11) } else { !((k as u8).wrapping_mul(37).wrapping_add(11)) }; k += 1; }
+    unsafe { REC.tape[0] = t; }
+}
+
+fn ots_sign_transcript<H: HashChain>(w: LmotsAlgorithm, wbits: usize, p: usize, pattern: u8) {
     let n = H::OUTPUT_SIZE as usize;
     let (_u, _v, ls, p_rfc) = appendix_b(n, wbits);
     assert!(p == p_rfc, "instance uses the Appendix-B chain count");
@@ -187,6 +197,7 @@ fn ots_sign_transcript<H: HashChain>(w: LmotsAlgorithm, wbits: usize, p: usize) 
     let mlen: usize = kani::any();
     kani::assume(mlen <= 5);
     rec_reset_symbolic();
+    pin_q(pattern);
     let sig = LmotsSignature::sign(&sk, &c, &msg[..mlen]);
     assert!(ok() && nq() == p + 1, "one message digest and p chains");
     let m = q(0);
@@ -207,12 +218,15 @@ fn ots_sign_transcript<H: HashChain>(w: LmotsAlgorithm, wbits: usize, p: usize) 
     }
     kani::cover!(mlen == 5, "longest message");
 }
-harness! { fn c07_ots_sign_transcript_n16_w8() unwind 70 { ots_sign_transcript::<RecSum16>(LmotsAlgorithm::LmotsW8, 8, 18) }}
-harness! { fn c07_ots_sign_transcript_n16_w4() unwind 70 { ots_sign_transcript::<RecSum16>(LmotsAlgorithm::LmotsW4, 4, 35) }}
-harness! { fn c07_ots_sign_transcript_n32_w8() unwind 70 { ots_sign_transcript::<RecSum32>(LmotsAlgorithm::LmotsW8, 8, 34) }}
+harness! { fn c07_ots_sign_transcript_n16_w8() unwind 70 { ots_sign_transcript::<RecSum16>(LmotsAlgorithm::LmotsW8, 8, 18, 0) }}
+harness! { fn c07_ots_sign_transcript_n16_w8_q2() unwind 70 { ots_sign_transcript::<RecSum16>(LmotsAlgorithm::LmotsW8, 8, 18, 1) }}
+harness! { fn c07_ots_sign_transcript_n16_w4() unwind 70 { ots_sign_transcript::<RecSum16>(LmotsAlgorithm::LmotsW4, 4, 35, 0) }}
+harness! { fn c07_ots_sign_transcript_n16_w4_q2() unwind 70 { ots_sign_transcript::<RecSum16>(LmotsAlgorithm::LmotsW4, 4, 35, 1) }}
+harness! { fn c07_ots_sign_transcript_n32_w8() unwind 70 { ots_sign_transcript::<RecSum32>(LmotsAlgorithm::LmotsW8, 8, 34, 0) }}
+harness! { fn c07_ots_sign_transcript_n32_w8_q2() unwind 70 { ots_sign_transcript::<RecSum32>(LmotsAlgorithm::LmotsW8, 8, 34, 1) }}
 
 /// verifier side (RFC 8554 Algorithm 4b) on an arbitrary parsed LM-OTS signature
-fn ots_candidate_transcript<H: HashChain, const YLEN: usize>(w: LmotsAlgorithm, wbits: usize, p: usize) {
+fn ots_candidate_transcript<H: HashChain, const YLEN: usize>(w: LmotsAlgorithm, wbits: usize, p: usize, pattern: u8) {
     salt_symbolic();
     let n = H::OUTPUT_SIZE as usize;
     let (_u, _v, ls, _p) = appendix_b(n, wbits);
@@ -226,6 +240,7 @@ fn ots_candidate_transcript<H: HashChain, const YLEN: usize>(w: LmotsAlgorithm, 
     kani::assume(mlen <= 5);
     let parsed = InMemoryLmotsSignature::<H> { signature_randomizer: &cb[..n], signature_data: &flat[..n * p], lmots_parameter: par };
     rec_reset_symbolic();
+    pin_q(pattern);
     let cand = generate_public_key_candidate(&parsed, &i, leaf, &msg[..mlen]);
     assert!(ok() && nq() == p + 2, "message digest, p chains, final digest");
     let m = q(0);
@@ -250,9 +265,12 @@ fn ots_candidate_transcript<H: HashChain, const YLEN: usize>(w: LmotsAlgorithm, 
     assert!(eq(cand.as_slice(), &tf[..n]), "candidate is that digest");
     kani::cover!(mlen == 5, "longest message");
 }
-harness! { fn c07_ots_candidate_transcript_n16_w8() unwind 70 { ots_candidate_transcript::<RecSum16, { 16 * 18 }>(LmotsAlgorithm::LmotsW8, 8, 18) }}
-harness! { fn c07_ots_candidate_transcript_n16_w4() unwind 70 { ots_candidate_transcript::<RecSum16, { 16 * 35 }>(LmotsAlgorithm::LmotsW4, 4, 35) }}
-harness! { fn c07_ots_candidate_transcript_n32_w8() unwind 70 { ots_candidate_transcript::<RecSum32, { 32 * 34 }>(LmotsAlgorithm::LmotsW8, 8, 34) }}
+harness! { fn c07_ots_candidate_transcript_n16_w8() unwind 70 { ots_candidate_transcript::<RecSum16, { 16 * 18 }>(LmotsAlgorithm::LmotsW8, 8, 18, 0) }}
+harness! { fn c07_ots_candidate_transcript_n16_w8_q2() unwind 70 { ots_candidate_transcript::<RecSum16, { 16 * 18 }>(LmotsAlgorithm::LmotsW8, 8, 18, 1) }}
+harness! { fn c07_ots_candidate_transcript_n16_w4() unwind 70 { ots_candidate_transcript::<RecSum16, { 16 * 35 }>(LmotsAlgorithm::LmotsW4, 4, 35, 0) }}
+harness! { fn c07_ots_candidate_transcript_n16_w4_q2() unwind 70 { ots_candidate_transcript::<RecSum16, { 16 * 35 }>(LmotsAlgorithm::LmotsW4, 4, 35, 1) }}
+harness! { fn c07_ots_candidate_transcript_n32_w8() unwind 70 { ots_candidate_transcript::<RecSum32, { 32 * 34 }>(LmotsAlgorithm::LmotsW8, 8, 34, 0) }}
+harness! { fn c07_ots_candidate_transcript_n32_w8_q2() unwind 70 { ots_candidate_transcript::<RecSum32, { 32 * 34 }>(LmotsAlgorithm::LmotsW8, 8, 34, 1) }}
 
 // ---- the trait's default chain loop: x_{j+1} = H(I | q | u16(i) | u8(j) | x_j) ---------------------
 fn chain_default_loop<H: HashChain>(from: usize, steps: usize) {
